@@ -964,8 +964,23 @@ func modesOf(kind string) []string {
 		m = append(m, "second-oidc")
 	case "waf":
 		m = append(m, "appol-missing", "appol-invalid", "logconf-missing", "logconf-invalid")
+		m = append(m, multiLogModes("logconfs")...)
 	case "wafb":
 		m = append(m, "bundle-missing", "logbundle-missing")
+		m = append(m, multiLogModes("logbundles")...)
+	}
+	return m
+}
+
+// multiLogModes: securityLogs lists of 2 and 3 entries, all usable ("ok") or with the unusable entry at
+// every position ("bad<k>").
+func multiLogModes(what string) []string {
+	var m []string
+	for n := 2; n <= 3; n++ {
+		m = append(m, fmt.Sprintf("%s-%d-ok", what, n))
+		for k := 0; k < n; k++ {
+			m = append(m, fmt.Sprintf("%s-%d-bad%d", what, n, k))
+		}
 	}
 	return m
 }
@@ -1051,6 +1066,7 @@ func productWorld(r *vh.Rng, g Gen, plus bool) World {
 	bad := addPolicyOfKindNS(&w, g.Kind, "p-bad", badNS)
 	badRefs := []RefIn{{NS: refNS, Name: "p-bad"}}
 	specRefs := []RefIn{}
+	var ctlRefs []RefIn
 	tls := true
 	mode := g.Mode
 	switch {
@@ -1094,6 +1110,46 @@ func productWorld(r *vh.Rng, g Gen, plus bool) World {
 		bad.Bundle = "nope.tgz"
 	case mode == "logbundle-missing":
 		bad.LogBundles = []string{"nopelog.tgz"}
+	case strings.HasPrefix(mode, "logbundles-"):
+		var n, k int
+		k = -1
+		parts := strings.Split(mode, "-")
+		fmt.Sscanf(parts[1], "%d", &n)
+		fmt.Sscanf(parts[2], "bad%d", &k)
+		bad.LogBundles = nil
+		for i := 0; i < n; i++ {
+			if i == k {
+				bad.LogBundles = append(bad.LogBundles, "nopelog.tgz")
+			} else {
+				bad.LogBundles = append(bad.LogBundles, "oklog.tgz")
+			}
+		}
+	case strings.HasPrefix(mode, "logconfs-"):
+		// n APLogConfs p-bad-lc0..; entry k does not exist.  addWAFPolicyRefs stops collecting at the first
+		// unusable APLogConf of a policy, so the LAST one is also referenced by a second WAF policy (p-help,
+		// on the control route): the VirtualServer-wide LogConfRefs then holds it, as in a cluster where two
+		// policies log with the same APLogConf.
+		var n, k int
+		k = -1
+		parts := strings.Split(mode, "-")
+		fmt.Sscanf(parts[1], "%d", &n)
+		fmt.Sscanf(parts[2], "bad%d", &k)
+		dropAP(&w, "p-bad-lc")
+		bad.LogConfs = nil
+		for i := 0; i < n; i++ {
+			name := fmt.Sprintf("p-bad-lc%d", i)
+			bad.LogConfs = append(bad.LogConfs, name)
+			if i != k {
+				w.AP = append(w.AP, APIn{NS: badNS, Name: name, Kind: "log"})
+			}
+		}
+		help := PolIn{NS: badNS, Name: "p-help", Kind: "waf", ApPol: "p-bad-ap"}
+		if k != n-1 {
+			help.LogConfs = []string{fmt.Sprintf("p-bad-lc%d", n-1)}
+		}
+		w.Policies = append(w.Policies, help)
+		bad = &w.Policies[len(w.Policies)-2]
+		ctlRefs = []RefIn{{NS: refNS, Name: "p-help"}}
 	case strings.HasPrefix(mode, "s1-") || strings.HasPrefix(mode, "s2-"):
 		sn := "p-bad-" + mode[:2]
 		what := mode[3:]
@@ -1145,7 +1201,7 @@ func productWorld(r *vh.Rng, g Gen, plus bool) World {
 	}
 	shape := vh.Pick(r, []string{"pass", "pass", "splits", "matches", "return", "grpc", "errpage"})
 	vs := &VSIn{NS: ns, Name: "vs", Host: "h.example.com", TLS: tls, TLSName: "tls-ok", Policies: specRefs}
-	ctl := RouteIn{Path: "/ctl", Shape: "pass"}
+	ctl := RouteIn{Path: "/ctl", Shape: "pass", Policies: ctlRefs}
 	switch g.Scope {
 	case "server":
 		vs.Policies = append(vs.Policies, scopeRefs...)
@@ -1545,6 +1601,14 @@ func histCases(root *vh.Rng) []Case {
 					for _, op := range []string{"delete", "invalid"} {
 						add("vs", Gen{Kind: k, Scope: sc, Mode: "appol-" + op, Pos: "history"}, init, EventIn{Dep: "appol", NS: ns, Name: "p-bad-ap", Op: op})
 						add("vs", Gen{Kind: k, Scope: sc, Mode: "logconf-" + op, Pos: "history"}, init, EventIn{Dep: "aplog", NS: ns, Name: "p-bad-lc", Op: op})
+					}
+					// three securityLogs entries, a non-last APLogConf becomes unusable
+					multi := productWorld(root.Fork(uint64(600000+si)), Gen{Kind: k, Scope: sc, Mode: "logconfs-3-ok", Pos: "alone"}, plus)
+					for _, op := range []string{"delete", "invalid"} {
+						for i := 0; i < 3; i++ {
+							add("vs", Gen{Kind: k, Scope: sc, Mode: fmt.Sprintf("logconfs-3-lc%d-%s", i, op), Pos: "history"}, multi,
+								EventIn{Dep: "aplog", NS: ns, Name: fmt.Sprintf("p-bad-lc%d", i), Op: op})
+						}
 					}
 				}
 			}
